@@ -9,6 +9,7 @@ from .. import gen_sdl, sdl_impl, ser, ser_sdl
 
 PROP = "C11"
 THEOREMS = ["C11_exact_partial", "C11_exact_build", "C11_order_declared", "C11_order_build",
+            "C11_order_rules", "C11_order_guard",
             "C11_reject_duplicates", "C11_exact_refuted", "C11_exact_refuted_divergence", "C11_reject_partial",
             "C11_ignore_extensions", "C11_order_partial", "C11_merge_object", "C11_merge_interface", "C11_merge_enum",
             "C11_merge_input", "C11_merge_union"]
